@@ -45,4 +45,58 @@ CLAIMED["C20"] = {
     "note": COMMON_NOTE + "inspect.signature, lru_cache, CPython call binding and the 'equivalent dataclass parse' are modelled.",
     "technique": "Coq proof over regenerated facts + vm_compute model/impl correspondence",
 }
+
+T = "Coq proof over regenerated facts + vm_compute model/impl correspondence"
+CLAIMED["C02"] = {
+    "text": "C02_leaf_roundtrip_partial: for every type of the CLI grammar except float and every value of it, the canonical tokens parse back to exactly "
+            "that value (induction over items/tuples; int() round trip for integers of any size); order independence and 'unmentioned fields keep their "
+            "default' for any number of distinct options; Optional[Literal]/List[Literal] refuted with a witness (known finding). float() is modelled "
+            "on exact decimals and covered by correspondence + instances, not by a general theorem. Converter tables and decision-chain orders are "
+            "regenerated; get_arg_options/postprocess are hand-modelled and tied by correspondence.",
+    "note": COMMON_NOTE + "argparse's slicing of one option group (nargs) and `--o=v` == `--o v` are modelled; float()/repr only on exact decimals.",
+    "technique": T,
+}
+CLAIMED["C04"] = {
+    "text": "C04_accepted_is_well_typed (any token list: an accepted field value conforms to its annotation) and C04_refused_means_exit_2 (any refusal is "
+            "argparse's error path, status 2 - true since the fix: commits, through the regenerated exception class of parse_enum and the regenerated "
+            "BooleanOptionalAction.__call__ table), plus one theorem per mutation class (arity, surplus token, unknown Enum/Literal member, ill-typed "
+            "item, value on a negative flag). Missing-required and unknown-option are argparse's own and covered by correspondence.",
+    "note": COMMON_NOTE + "argparse's required/unknown-option handling is modelled; user __post_init__ is not exercised.",
+    "technique": T,
+}
+CLAIMED["C11"] = {
+    "text": "C11_scalar / C11_scalar_count_rule for all n >= 2 and all token lists (absent -> defaults, one -> all, n -> i-th to i-th in registration order, "
+            "otherwise InconsistentArgumentError), C11_merge_order; the container statement is refuted with four witnesses (known findings) and proved as "
+            "C11_container_partial for bracketed literals with safe defaults. duplicate_if_needed's chain, the default packaging condition and nargs are regenerated.",
+    "note": COMMON_NOTE + "token literals (ast.literal_eval) and nested layouts are covered by correspondence only.",
+    "technique": T,
+}
+CLAIMED["C14"] = {
+    "text": "For all hierarchies and every enumeration order of subclasses (C14_any_permutation): the class chosen has every serialized key and minimal field "
+            "count (C14_superset); an identified class loads back as itself with an equal value (C14_identified, init-only side condition; refuted otherwise); "
+            "drop_extra_fields gives exactly the base; save_dc_types restores the exact class through dataclass-typed fields (partial; List/Dict items refuted).",
+    "note": COMMON_NOTE + "__subclasses__ enumeration order is an input of each correspondence case; import machinery is modelled.",
+    "technique": T,
+}
+CLAIMED["C17"] = {
+    "text": "Induction on type expressions: every spelling denotes the same CLI type (C17_denote_render); union normalisation and the textual rewriter are "
+            "correct on the stated sub-grammars (partial; tuple[X, ...] | None and bracketed bars refuted with witnesses = known findings); inheritance "
+            "chains flatten to the flat class's field list. The property's pairwise oracle runs on real modules in 4 styles x flat/inherited x module/function scope.",
+    "note": COMMON_NOTE + "typing.get_type_hints, frames and namespaces are not modelled (pairwise runs only).",
+    "technique": T,
+}
+CLAIMED["C18"] = {
+    "text": "For all trees and change sets: frame (addressed leaves new, every other leaf/node unchanged), empty change set, dotted = nested = keyword forms, "
+            "equality with level-by-level dataclasses.replace, errors for non-init/unknown fields at any depth (C18_*). replace_subgroups: full statement "
+            "refuted with witnesses (known findings), proved for no selection and one top-level selection.",
+    "note": COMMON_NOTE + "dataclasses.replace itself is modelled.",
+    "technique": T,
+}
+CLAIMED["C19"] = {
+    "text": "C19_scan_render: the model of the docstring.py line scanner applied to the rendering of ANY well-formed layout returns exactly the documentation "
+            "written for each field (no leakage, nothing invented), C19_precedence over the regenerated or-chain, C19_nearest_class over the MRO fold "
+            "(partial: inherited-entry case refuted), history independence on single-inheritance chains (mixin case refuted) - the refutations are known findings.",
+    "note": COMMON_NOTE + "inspect.getsource and docstring_parser are oracles; checked on generated real module files.",
+    "technique": T,
+}
 NOT_CLAIMED = {}
